@@ -25,7 +25,7 @@ import (
 	"verif.local/harness/ev"
 )
 
-const rule = "per backend (11 single backends, in the thorough tier with 3 seeded histories each, + 8/40 seeded compositions): one seeded history (22-40 ops: receive/fetch/subfetch/stat incl. batches of 25 and 60 refs/enumerate/remove/reopen) run fault-free to learn every operation's lower-layer calls, then one re-run on a fresh instance per (operation, lower call) with a single injected failure (error; error-after-effect for write calls and enumerations; truncated scan for enumerations/KV scans/readdir/file I/O), plus seeded bursts of 2-5 consecutive errors; after the fault: rest of the history, retry of the faulted call, 14 probe operations, full audit, the store's own recovery (diskpacked.Reindex into a fresh index, blobpacked Fast+Full recovery, encrypt re-scan with an empty index, reopen) and a second audit; per gated backend a repetition scenario (3 x gate capacity failing calls per op kind in one process, each under a watchdog, then a healthy call); optional real-ENOSPC scenario on a 1 MiB tmpfs (diskpacked packs, files temp files). distinct = (backend, history op, op kind, lower-call kind+mode, lower-call index) where the fault was actually delivered"
+const rule = "per backend (11 single backends, in the thorough tier with 3 seeded histories each; the key/value-backed ones (blobpacked, diskpacked; thorough also encrypt, overlay, namespace) a second time over a real sqlite file whose batches and iterators own the store's one-slot gate (quick: only the operations that write or scan below); encrypt-long: 101 receives so that the background meta compaction runs and is faulted; 8/40 seeded compositions + 2/6 compositions around blobpacked{meta=sqlite} whose history packs a >=560 KiB file): one seeded history (22-40 ops: receive/fetch/subfetch/stat incl. batches of 25 and 60 refs/enumerate/remove/reopen) run fault-free to learn every operation's lower-layer calls, then one re-run on a fresh instance per (operation, lower call) with a single injected failure (error; error-after-effect for write calls and enumerations; truncate = partial effect then failure for enumerations/KV scans/readdir/file I/O, for fetched bodies (fail half way), and for batched lower stats/removes (half done), also inside compositions), plus seeded bursts of 2-5 consecutive errors; after the fault: rest of the history, retry of the faulted call, 14 probe operations, full audit, the store's own recovery (diskpacked.Reindex into a fresh index, blobpacked Fast+Full recovery, encrypt re-scan with an empty index, reopen) and a second audit; a watchdog firing counts only with goroutines waiting inside perkeep frames and after reproduction in a fresh process; per gated backend a repetition scenario (per op kind and per fault position first/middle/last lower call of the op: 3 x gate capacity failing calls in one process, each under a watchdog, then a healthy call); optional real-ENOSPC scenarios on a 1 MiB tmpfs (diskpacked packs, files temp files, diskpacked roll-over with exhausted inodes so that creating the next pack file fails). distinct = (backend, history op, op kind, lower-call kind+mode, lower-call index) where the fault was actually delivered"
 
 func main() {
 	if m := os.Getenv("VERIF_CHILD"); m != "" {
@@ -321,12 +321,17 @@ func (co *coordinator) gateChain(def *backendDef) {
 		}
 	}
 	g := runs[0]
-	r.Eval(5 * (g.Counts["repetitions_per_phase"] + 1))
+	r.Eval(g.Counts["gate_calls"])
 	r.Note("gate_scenarios", def.Label)
-	r.Count("gate_repetitions", 5*g.Counts["repetitions_per_phase"])
+	r.Count("gate_repetitions", g.Counts["gate_calls"])
+	for _, k := range []string{"stat", "remove", "enumerate", "fetch", "receive"} {
+		if g.Counts[k+"_fault_positions"] > 1 {
+			r.Note("gate_fault_positions", def.Label+":"+k+":first+middle/last")
+		}
+	}
 	r.Distinct("gate|" + def.Name)
 	if os.Getenv("VERIF_ONLY") != "" || def.Name == "diskpacked" {
-		r.Sample(map[string]any{"case_id": "gate:" + def.Name + ";", "scenario": "3*capacity failing calls per op kind in one process, then a healthy call", "counts": g.Counts, "hung_phases": g.Notes})
+		r.Sample(map[string]any{"case_id": "gate:" + def.Name + ";", "scenario": "per op kind and per fault position (first, middle, last lower call of the op): 3*capacity failing calls in one process, then a healthy call", "counts": g.Counts, "hung_phases": g.Notes})
 	}
 	for _, k := range []string{"stat", "remove", "enumerate", "fetch", "receive"} {
 		if g.Counts[k+"_healthy_call_failed"] > 0 {
@@ -356,7 +361,7 @@ func (co *coordinator) gateChain(def *backendDef) {
 		}
 		r.Note("gate_outcomes", def.Label+":"+ph+":leak")
 		w := map[string]any{"case_id": "gate:" + def.Name + ";", "backend": def.Name, "phase": ph, "counts": g.Counts,
-			"scenario": "fill 60 blobs; per op kind: 3*capacity calls with an injected error at the call's first lower-layer call, each under a watchdog, then one healthy call",
+			"scenario": "fill 60 blobs; per op kind and per fault position (first, middle, last lower call of the op): 3*capacity calls with an injected error at that lower-layer call, each under a watchdog, then one healthy call",
 			"blocked":  strings.Split(ev.PerkeepFrames(g.What), "\n")}
 		if ph == "stat" {
 			r.Violation("statgate-leak/"+def.Label, fmt.Sprintf("[%s] package-level stat gate (capacity %d) leaks a slot per failing batched stat: %d failing 60-ref StatBlobs calls returned, the next one never returned (healthy call: %v); reproduced in 2 fresh processes. Blocked goroutines:\n%s",
@@ -418,7 +423,9 @@ func run(r *ev.Run) {
 	r.Assume("a faulted call that fails is accepted whatever its error text (a misleading not-found for a present blob is counted, not judged); a faulted call that reports success must be exactly right")
 	r.Assume("an acknowledged remove under an injected fault leaves its refs uncertain (replica documents best-effort removal)")
 	r.Assume("after the store's own recovery the refs named by the faulted call may be present or absent (a fully written record/meta blob of a failed receive may be picked up), intact if present; blobpacked recovery may restore removed blobs (documented)")
-	r.Assume("lower-layer failures are injected only at harness-owned interfaces (blobserver.Storage leaves, sorted.KeyValue, files.VFS); diskpacked pack-file I/O itself is not faulted here")
+	r.Assume("lower-layer failures are injected only at harness-owned interfaces (blobserver.Storage leaves, sorted.KeyValue, files.VFS); diskpacked pack-file I/O itself is only faulted by the real ENOSPC of the tmpfs scenarios (no read errors, no failing Sync)")
+	r.Assume("a failing CommitBatch on the sqlite-backed key/value store applies nothing and releases the transaction and the gate (what sorted/sqlkv.CommitBatch does on every path); the batch is begun below when perkeep begins it")
+	r.Assume("encrypt-long: the harness waits after every operation until no goroutine is inside perkeep's storage code, so the background compaction belongs to the operation that started it and never overlaps a re-open")
 	r.Assume("a hang is reported only if it reproduces in a second fresh process; otherwise the case is inconclusive")
 
 	if _, err := selfExe(); err != nil {
@@ -469,7 +476,7 @@ func run(r *ev.Run) {
 		addEnum(d)
 	}
 	if only == "" || strings.HasPrefix(only, "tmpfs:") {
-		for _, n := range []string{"diskpacked", "files"} {
+		for _, n := range []string{"diskpacked", "files", "diskpacked-rollover"} {
 			n := n
 			if only == "" || only == "tmpfs:"+n+";" {
 				jobs = append(jobs, func() { co.tmpfsChain(n) })
@@ -506,9 +513,11 @@ func run(r *ev.Run) {
 		r.Extra("process_deaths_by_backend", ks)
 	}
 	if only == "" {
-		r.Require("backends", "diskpacked", "files", "blobpacked", "encrypt", "replica", "shard", "cond", "overlay", "namespace", "proxycache", "union", "comp0", "comp5")
+		r.Require("backends", "diskpacked", "files", "blobpacked", "encrypt", "replica", "shard", "cond", "overlay", "namespace", "proxycache", "union", "comp0", "comp5", "blobpacked-sql", "diskpacked-sql", "compS0", "compS1", "encrypt-long")
 		r.Require("categories", "fault-during-diskpacked-pack-rollover", "fault-at-index-set-after-data-append", "fault-at-index-set-after-pack-rollover",
-			"fault-at-commitbatch-of-remove", "fault-in-batched-stat>20", "fault-in-batched-stat>50", "enum-source-closes-then-errors-late", "enum-source-errors-at-close")
+			"fault-at-commitbatch-of-remove", "fault-in-batched-stat>20", "fault-in-batched-stat>50", "enum-source-closes-then-errors-late", "enum-source-errors-at-close",
+			"fault-over-sql-index", "fault-at-zip-upload-with-sql-index", "fault-in-sql-index-call", "fetched-body-fails-half-way",
+			"batched-lower-call-does-half-then-fails", "partial-scan-inside-composition", "fault-in-background-meta-compaction")
 		r.Require("recoveries", "diskpacked.reindex", "blobpacked.fast", "blobpacked.full", "encrypt.rescan", "files.reopen")
 		r.Require("gate_scenarios", "files", "diskpacked", "encrypt", "blobpacked")
 		r.Require("outcomes", "error", "absorbed")
